@@ -14,7 +14,11 @@ def _inputs(build_inputs, env):
     extra = []
     if env.mopack:
         extra = [env.tool('mopack').metadata_file]
-    return build_inputs.bootstrap_paths + listify(env.toolchain.path) + extra
+    # The saved environment is an input too: it's written before anything else,
+    # so if a (re)configuration is interrupted after saving it, the build files
+    # are older than the configuration they should describe and get regenerated.
+    return (build_inputs.bootstrap_paths + listify(env.toolchain.path) + extra +
+            [Path(env.envfile)])
 
 
 def _outputs(build_inputs, env):
